@@ -163,7 +163,8 @@ def judge_crash(part, o, entry, vname, vm, case, note):
 def run(tier):
     report = common.Report(PROP, tier, "exploration")
     report.rule = (
-        "per curve (32) x byte order (2) x build variant: 8 (thorough 14) points {G,2G,3G,(n-1)G,(n-2)G,random,O} "
+        "per curve (thorough: all 32; quick: a seeded rotating subset of 10 that always holds secp521r1, a cofactor-4, "
+        "a Brainpool, a 161/225-bit-order and three GOST curves) x byte order (2) x build variant: 8 (thorough 14) points {G,2G,3G,(n-1)G,(n-2)G,random,O} "
         "exported in 3 layouts and re-imported in 4; ~45 invalid imports (off-curve, x/y >= p, non-residue x, "
         "2-torsion and wrong-order points where the true cofactor != 1, 5 wrong prefix bytes x 2 lengths, "
         "every total length 0..2*bytes+2); key generation over rnd {0,1,2,n-1,n,n+1,max,random} x rnd_size; "
@@ -183,6 +184,9 @@ def run(tier):
     curves = ec.curve_list()
     jobs = []
     only = base.curve_filter(report)
+    if not only and tier == "quick":
+        only = base.quick_subset(curves, PROP)
+        report.extra["quick_curve_subset"] = sorted(only)
     for ci in range(len(curves)):
         if only and curves[ci].name not in only:
             continue
